@@ -57,6 +57,8 @@ def to_sym(x, sort):
         return BoolV(bool(x))
     if base in ("Mesh", "MeshPatt"):
         return ObjV(type(x).__name__ if type(x).__name__ in ("MeshPatt",) else "MeshPatt", {"pattern": conc_seq(tuple(x.pattern), "Perm"), "shading": conc_set(x.shading)})
+    if base == "Str":
+        return conc_seq(tuple(ord(ch) for ch in x), "str")
     if base == "Cell":
         return TupV([IntV(x[0]), IntV(x[1])])
     if base == "CellSetSeq":
@@ -164,6 +166,8 @@ def normal(x):
     """real result -> the same plain data"""
     if x is None or isinstance(x, (bool, int)):
         return x
+    if isinstance(x, str):
+        return [ord(ch) for ch in x]  # strings are sequences of character codes
     if hasattr(x, "shading") and hasattr(x, "pattern"):
         return ("mesh", [int(v) for v in x.pattern], {tuple(c) for c in x.shading})
     if isinstance(x, (set, frozenset)):
